@@ -216,4 +216,55 @@ example : listing [⟨[97], [120], -5⟩, ⟨[97], [121], 512⟩, ⟨[98], [122]
     [97, 10] ++ ("-000005 x\n001000 w\n001000 y\n".toList.map Char.toNat) ++ [10] ++
     [98, 10] ++ ("210560 z\n".toList.map Char.toNat) ++ [10] := by decide +kernel
 
+/-! ### the listing is a function of the set of symbols -/
+
+theorem lexLe_antisymm (a b : Str) (h1 : lexLe a b = true) (h2 : lexLe b a = true) : a = b := by
+  induction a generalizing b with
+  | nil => cases b with
+    | nil => rfl
+    | cons y ys => simp [lexLe] at h2
+  | cons x xs ih => cases b with
+    | nil => simp [lexLe] at h1
+    | cons y ys =>
+      simp only [lexLe, Bool.or_eq_true, decide_eq_true_eq, Bool.and_eq_true, beq_iff_eq] at h1 h2
+      rcases h1 with h1 | ⟨e1, h1⟩
+      · rcases h2 with h2 | ⟨e2, _⟩
+        · omega
+        · omega
+      · rcases h2 with h2 | ⟨_, h2⟩
+        · omega
+        · rw [e1, ih ys h1 h2]
+
+/-- two symbols of one file with the same value and name are the same symbol, so the sort key
+    is antisymmetric inside a file -/
+theorem keyLe_antisymm (a b : Sym) (hf : a.file = b.file) (h1 : keyLe a b = true) (h2 : keyLe b a = true) : a = b := by
+  simp only [keyLe, Bool.or_eq_true, decide_eq_true_eq, Bool.and_eq_true, beq_iff_eq] at h1 h2
+  have hv : a.value = b.value := by
+    rcases h1 with h1 | ⟨e1, _⟩ <;> rcases h2 with h2 | ⟨e2, _⟩ <;> omega
+  have hn : a.name = b.name := by
+    rcases h1 with h1 | ⟨_, h1⟩
+    · omega
+    · rcases h2 with h2 | ⟨_, h2⟩
+      · omega
+      · exact lexLe_antisymm _ _ h1 h2
+  cases a; cases b; simp_all
+
+/-- **The listing of a file does not depend on the order in which its symbols were defined**
+    (the order of the symbol table): any two symbol tables that hold the same symbols give the
+    same section, line for line. -/
+theorem listing_order_independent (s1 s2 : List Sym) (h : s1.Perm s2) (f : Str) : group s1 f = group s2 f := by
+  have hp : (group s1 f).Perm (group s2 f) :=
+    (listing_each_once s1 f).trans ((h.filter _).trans (listing_each_once s2 f).symm)
+  refine List.Perm.eq_of_pairwise (le := fun a b => keyLe a b = true) ?_ (listing_sorted s1 f) (listing_sorted s2 f) hp
+  intro a b ha hb hab hba
+  have fa : a.file = f := by
+    have := (listing_each_once s1 f).subset ha
+    simpa using (List.mem_filter.mp this).2
+  have fb : b.file = f := by
+    have := (listing_each_once s2 f).subset hb
+    simpa using (List.mem_filter.mp this).2
+  exact keyLe_antisymm a b (fa.trans fb.symm) hab hba
+
+example : group [⟨[97], [120], 5⟩, ⟨[97], [121], -2⟩] [97] = group [⟨[97], [121], -2⟩, ⟨[97], [120], 5⟩] [97] := by decide
+
 end Pdpy11.Props.C19
